@@ -1,5 +1,4 @@
 CONSTANT SigCache = TRUE
-CONSTANT Devices <- MCDevices
 SPECIFICATION Spec
 INVARIANT FreshSignature
 CONSTRAINT Bounded
